@@ -49,6 +49,11 @@ type c13member struct {
 }
 
 func checkC13(run *Run, res *Result) {
+	checkC13Rules(run, res)
+	markPreemptedWait(run, res, "C13/R2-settled-position-not-stored", "C13/R1-crash-during-shutdown", "C13/R1-shutdown-never-completed", "C13/R3-activity-after-shutdown", "C13/R4-stream-left-open", "C13/R4-connections-left-open")
+}
+
+func checkC13Rules(run *Run, res *Result) {
 	cfg := &run.Cfg
 	ms := map[int]*c13member{}
 	get := func(m int) *c13member {
